@@ -394,7 +394,7 @@ impl Check for C16 {
     fn run_shard(&self, ctx: &Ctx, rec: &mut Rec) {
         let total = match ctx.tier {
             Tier::Quick => 9000,
-            Tier::Thorough => 30000,
+            Tier::Thorough => 150000,
         };
         prop_loop(ctx, rec, "gen", strategy(), ctx.share(total), judge);
     }
